@@ -67,3 +67,31 @@ Example C19_nonvacuous :
   let t := JObj [("c", JStr "COMMAND"); ("attr", JObj [("command", JObj [("find", JStr "x"); ("filter", JObj [("a", JStr "s@t.co"); ("n", JNum "5")])])])] in
   R t <> t /\ R (R t) = R t.
 Proof. vm_compute. split; [discriminate | reflexivity]. Qed.
+
+(* ---------- text level: the emitted line is a fixed point ---------- *)
+From Model Require Import JsonText.
+From Proofs Require Import Utf8Facts StrCodec Codec ParseWf TextLevel.
+
+(* For the regenerated tables and constants, every combination of --redactNumbers /
+   --redactBooleans / --redactIPs and every replacement text that is valid UTF-8 and not e-mail
+   shaped: a line the tool emits, fed back, is emitted again byte for byte. *)
+Theorem C19_line_fixed_point : forall rp n b i l o,
+  is_email rp = false -> valid_string rp ->
+  let c := {| repl := rp; nums := n; bools := b; ips := i; nss := false; eager := []; re := None |} in
+  redact_line current current_consts c None l = Out o ->
+  redact_line current current_consts c None o = Out o.
+Proof.
+  intros rp n b i l o Hr Hv c H.
+  assert (Hc : valid_string (c_isodate current_consts) /\ valid_string (c_oid current_consts) /\ valid_string (c_uuid current_consts) /\
+               valid_string (c_email current_consts) /\ valid_string (repl c)).
+  { repeat split; try (apply all_ascii_valid; vm_compute; reflexivity). exact Hv. }
+  destruct (emitted_parses_back current current_consts c None eq_refl Hc ltac:(discriminate)
+              (fun s => hash_name_valid (repl c) s Hv) l o H) as (t & Ep & Eo & _).
+  pose proof H as H0. unfold redact_line in H0. rewrite Ep in H0.
+  destruct (printable (redact_tree current current_consts c (real_actions current_consts c None) t)) eqn:Hpr; [|discriminate].
+  injection H0 as Ho.
+  destruct (parse_line_wfp l t Ep) as [Hn _].
+  pose proof (C19_current rp n b i t Hr Hn) as Hfix. cbv zeta in Hfix. fold c in Hfix.
+  unfold redact_line. rewrite Eo. rewrite Hfix, Hpr. now rewrite Ho.
+Qed.
+Print Assumptions C19_line_fixed_point.
